@@ -177,6 +177,7 @@ func identViaMain(c *IdentCase) error {
 		}
 		stopped = true
 		cancel()
+		stub.Close() // the bastion goroutine only returns once its reverse connection is gone
 		select {
 		case <-done:
 		case <-time.After(30 * time.Second):
